@@ -23,6 +23,7 @@ RULE = (
     "conforming value that needs conversion, or a value broken below the top level; distinct = distinct class+arguments"
 )
 RULE += '; the class under test may be a derived class that inherits all generated attributes (a base-class instance in a Self position does not conform then)'
+RULE += '; enumerated: a generic class forwarding its parameter to another generic State x every specialisation x boxes of every specialisation'
 LEVEL_TEXT = (
     "Differential testing against an independent three-valued conformance relation over the harness's own term AST: "
     "construction must succeed iff every supplied-or-defaulted value conforms, and every stored attribute must be the "
@@ -430,6 +431,22 @@ def enumerate_cases(tier):
             if v["v"] == "missing":
                 continue
             yield {"cls": cls, "args": {"a0": v}, "broken_depth": 1}
+    # a GENERIC class that forwards its own parameter to another generic State (directly and inside containers), every
+    # specialisation of it against every pool value plus boxes of every specialisation: `GBox[T]` means GBox[<the argument>]
+    boxes = [TT.V("gbox", arg=a, val=TT.gen_plain_value(a), items=[]) for a in TT.TARGS if TT.gen_plain_value(a) is not None]
+    fwd = TT.T("generic", arg="T")
+    for t in (fwd, TT.T("seq", of=fwd), TT.T("optional", of=fwd), TT.T("map", k=TT.T("str"), v=fwd), TT.T("tuple_fixed", items=[fwd, TT.T("str")])):
+        for targ in TT.TARGS:
+            cls = {"generic": True, "targ": targ, "attrs": [{"name": "a0", "term": t, "default": None}]}
+            for b in boxes:
+                v = b
+                if t["t"] == "seq":
+                    v = TT.V("list", items=[b])
+                elif t["t"] == "map":
+                    v = TT.V("dict", items=[[TT.V("str", x="k"), b]])
+                elif t["t"] == "tuple_fixed":
+                    v = TT.V("tuple", items=[b, TT.V("str", x="s")])
+                yield {"cls": cls, "args": {"a0": v}, "broken_depth": 1}
 
 
 EXHAUSTIVE_MEANS = "the (annotation term x value) matrix: every leaf term and every one-level wrapper of it (thorough: also every union of two leaves) against every value of a fixed pool of ~50 values"
